@@ -110,9 +110,32 @@ func (g *g16) genStruct(depth int) *s16 {
 				case tyEnum:
 					f.HasDef, f.EnumDef, f.DefIDL, f.DefJSON = true, true, "Color.GREEN", "2"
 				}
+				// a declared default that IS the zero value (0, "", false, the enum member 0): it is still a parsed
+				// default, so the "optional field carrying a parsed default" clause applies to it as to any other
+				if r.chance(40) {
+					switch f.Ty {
+					case thrift.BOOL:
+						f.DefIDL, f.DefBin, f.DefJSON = "false", []byte{0}, "false"
+					case thrift.I32:
+						f.DefIDL, f.DefBin, f.DefJSON = "0", be32(0), "0"
+					case thrift.I64:
+						f.DefIDL, f.DefBin, f.DefJSON = "0", be64(0), "0"
+					case thrift.STRING:
+						f.DefIDL, f.DefBin, f.DefJSON = "\"\"", tstr(""), "\"\""
+					case thrift.I16:
+						f.DefIDL, f.DefBin, f.DefJSON = "0", []byte{0, 0}, "0"
+					case thrift.I08:
+						f.DefIDL, f.DefBin, f.DefJSON = "0", []byte{0}, "0"
+					case tyEnum:
+						f.DefIDL, f.DefJSON = "Color.ZERO", "0"
+					}
+				}
 				// an enum identifier as the default of an integer field (legal IDL): `2: i64 L = Color.BLUE`
 				if (f.Ty == thrift.I32 || f.Ty == thrift.I64 || f.Ty == thrift.I16 || f.Ty == thrift.I08) && r.chance(40) {
 					f.HasDef, f.EnumDef, f.DefIDL, f.DefJSON = true, true, "Color.BLUE", "3"
+					if r.chance(30) {
+						f.DefIDL, f.DefJSON = "Color.ZERO", "0"
+					}
 				}
 			}
 		}
@@ -149,6 +172,8 @@ func (f *f16) defBinFor(pb int) []byte {
 		v := int64(3)
 		if f.DefIDL == "Color.GREEN" {
 			v = 2
+		} else if f.DefIDL == "Color.ZERO" {
+			v = 0
 		}
 		return intBin(f.tyFor(pb), v)
 	}
@@ -190,7 +215,7 @@ func (f *f16) idlType() string {
 
 func (g *g16) idl(root *s16) string {
 	var sb strings.Builder
-	sb.WriteString("namespace go verif\nenum Color { RED = 1, GREEN = 2, BLUE = 3 }\n")
+	sb.WriteString("namespace go verif\nenum Color { ZERO = 0, RED = 1, GREEN = 2, BLUE = 3 }\n")
 	for i := len(g.structs) - 1; i >= 0; i-- {
 		s := g.structs[i]
 		sb.WriteString("struct " + s.Name + " {\n")
